@@ -494,6 +494,7 @@ let do_rhist id ins outs =
                (* on error the bytes left in the buffer are not part of any property (the proxy answers SERVFAIL) *)
                let same = if r.rs_err && err = "1" then fc = (if r.rs_from_cache then "1" else "0") else is = ms in
                if not same then problems := Printf.sprintf "op %d (%s): impl=%s model=%s" i (String.sub o 0 (min 40 (String.length o))) is ms :: !problems;
+               if fc = "1" && err = "0" && not (serves_now cfg h op) then specs := "C07" :: !specs;
                if fc = "1" && err = "0" then begin
                  incr nhit;
                  (match full_bytes buf with
@@ -544,6 +545,76 @@ let do_fault id ins outs =
     else verdict "fault" id "diff" tag (Printf.sprintf "impl=%s model=%s" rep model)
   | _ -> verdict "fault" id "diff" "malformed-line" ""
 
+(* ---- engine manager ----
+   mgr <id> <threshold/init> <provs> <health> <ops> => <log> <snapshots> *)
+let do_mgr id ins outs =
+  match ins, outs with
+  | ["crash"; _; _; where], [what; _] ->
+    verdict "mgr" id "spec:C08,C09" "crash" (Printf.sprintf "the process died while running the script (%s): %s" where what)
+  | [cfgt; provt; healtht; opst], [ilog; isnaps] ->
+    let zi s = z_of_int (int_of_string s) in
+    let (thr, initid) = (match split_on '/' cfgt with [a; b] -> (int_of_string a, int_of_string b) | _ -> failwith "cfg") in
+    let cfg = { threshold = z_of_int thr; def_interval = z_of_int 100;
+                ep_interval = (fun e -> if (int_of_z e) mod 3 = 0 then z_of_int 5 else Z0);
+                init_ep = (if initid = 0 then None else Some (z_of_int initid)) } in
+    let parse_prov sp = (match sp with
+        | "p" -> PFail PPlain | "u" -> PFail PUnreach
+        | _ -> let body = String.sub sp 1 (String.length sp - 1) in
+          PEps (if body = "" then [] else List.map zi (split_on ',' body))) in
+    let provs0 = List.map parse_prov (split_on '|' provt) in
+    let parse_h h = (match h with "ok" -> ProbeOk | "unreach" -> ProbeUnreach | _ -> ProbeFail) in
+    let health0 = if healtht = "" then [] else List.map (fun kv -> match split_on '=' kv with
+        | [k; v] -> (zi k, parse_h v) | _ -> failwith "health") (split_on ',' healtht) in
+    let en0 = { provs = provs0; health = health0; now = z_of_int 1000000000 } in
+    let ops = split_on ';' opst in
+    let isn = Array.of_list (split_on ';' isnaps) in
+    let captured = Hashtbl.create 8 in
+    let problems = ref [] in
+    let snap_of en s =
+      (match s.active with
+       | None -> "none"
+       | Some i -> let a = get_obj s i in
+         Printf.sprintf "ep%d/%d/%s/%d/%d" (int_of_z a.a_ep) (int_of_z a.a_interval) (if a.a_testing then "1" else "0")
+           (int_of_z a.a_errs) (if a.a_last = Z0 then -1 else int_of_z en.now - int_of_z a.a_last)) in
+    let nelect = ref 0 and nchange = ref 0 in
+    let rec nat_of_int n = if n = 0 then O else S (nat_of_int (n-1)) in ignore nat_of_int;
+    let (_, sfin, _) = List.fold_left (fun (en, s, k) o ->
+        let lbl =
+          if String.length o >= 2 && String.sub o 0 2 = "Q+" then QStart (zi (String.sub o 2 (String.length o - 2)))
+          else if String.length o >= 2 && String.sub o 0 2 = "Q-" then
+            (match split_on ':' (String.sub o 2 (String.length o - 2)) with
+             | [q; ok] -> let i = (try Hashtbl.find captured (int_of_string q) with Not_found -> O) in QEnd (zi q, i, ok = "1")
+             | _ -> failwith "Q-")
+          else if o = "E" then (incr nelect; Elect)
+          else if o.[0] = 'T' then Advance (zi (String.sub o 1 (String.length o - 1)))
+          else if o.[0] = 'H' then
+            (match split_on '=' (String.sub o 1 (String.length o - 1)) with
+             | [e; h] -> SetHealth (zi e, parse_h h) | _ -> failwith "H")
+          else if o.[0] = 'P' then
+            (match split_on '=' (String.sub o 1 (String.length o - 1)) with
+             | [j; sp] -> let jj = int_of_string j in
+               SetProvs (List.mapi (fun idx p -> if idx = jj then parse_prov sp else p) en.provs)
+             | _ -> failwith "P")
+          else failwith ("mgr op " ^ o) in
+        let ((en', s'), cap) = mstep cfg en s lbl in
+        (match lbl, cap with QStart q, Some i -> Hashtbl.replace captured (int_of_z q) i | _ -> ());
+        (if k < Array.length isn && isn.(k) <> "locked" then
+           let ms = snap_of en' s' in
+           if ms <> isn.(k) then problems := Printf.sprintf "after op %d (%s): state impl=%s model=%s" k o isn.(k) ms :: !problems);
+        (en', s', k + 1)) (en0, m0, 0) ops in
+    let ev_str = function
+      | EvProbe e -> Printf.sprintf "probe:%d" (int_of_z e) | EvChange e -> (incr nchange; Printf.sprintf "change:%d" (int_of_z e))
+      | EvError e -> Printf.sprintf "error:%d" (int_of_z e) | EvProvErr _ -> "proverr"
+      | EvUsed (q, e) -> Printf.sprintf "used:%d:%d" (int_of_z q) (int_of_z e) | EvQErr q -> Printf.sprintf "qerr:%d" (int_of_z q) in
+    let mlog = (match sfin.evlog with [] -> "-" | l -> String.concat "," (List.map ev_str l)) in
+    let has_sub s sub = (let n = String.length sub in let rec f i = i + n <= String.length s && (String.sub s i n = sub || f (i+1)) in f 0) in
+    let tag = Printf.sprintf "e%d/c%d%s" (min !nelect 3) (min !nchange 3) (if initid = 0 then "/boot" else "/init") in
+    if has_sub ilog "STUCK" then verdict "mgr" id "spec:C09" tag ("deadlock watchdog: " ^ ilog)
+    else if ilog <> mlog then verdict "mgr" id "diff" tag (Printf.sprintf "log impl=%s model=%s" ilog mlog)
+    else if !problems <> [] then verdict "mgr" id "diff" tag (String.concat "; " (List.rev !problems))
+    else verdict "mgr" id "ok" tag ""
+  | _ -> verdict "mgr" id "diff" "malformed-line" ""
+
 let () =
   try
     while true do
@@ -558,6 +629,7 @@ let () =
       | "clist" :: id :: rest -> let (i, o) = split_arrow rest in do_clist id i o
       | "rhist" :: id :: rest -> let (i, o) = split_arrow rest in do_rhist id i o
       | "fault" :: id :: rest -> let (i, o) = split_arrow rest in do_fault id i o
+      | "mgr" :: id :: rest -> let (i, o) = split_arrow rest in do_mgr id i o
       | "ttl" :: id :: rest -> let (i, o) = split_arrow rest in do_ttl id i o
       | "mdns" :: id :: rest -> let (i, o) = split_arrow rest in do_mdns id i o
       | "flow" :: id :: rest -> let (i, o) = split_arrow rest in do_flow id i o
